@@ -1,5 +1,81 @@
 import BigtreeModel.Proto
-/-! Driver handler for property C08: one case (token list) in, one canonical line out. -/
+import BigtreeModel.Modify
+/-! Driver handler for property C08 (shift / copy / replace).
+
+`fn=<cs|rp> copy=<0|1> flags=<skippable overriding merge_children merge_leaves delete_children
+ with_full_path as six 0/1 digits> sep=<x…> fsep=<x…> tsep=<x…> n=<fresh-id counter>
+ from=<x…,x…|-> to=<x…|N,…|-> [S <tree>] D <tree>`
+
+→ `ok <dst tree> [| <src tree>]` (ids `≥ n` are printed as `new`) or the exception class
+(`ValueError`, `NotFoundError`, `TreeError`, `SearchError`, otherwise `rej`). -/
 namespace Drv.C08
-def handle (_toks : List String) : String := "unimplemented"
+open Proto Modify
+
+def splitAtTok (toks : List String) (t : String) : List String × List String :=
+  (toks.takeWhile (· ≠ t), (toks.dropWhile (· ≠ t)).drop 1)
+
+def parseList (s : String) : Option (List String) :=
+  if s == "-" then some [] else some (s.splitOn ",")
+
+def parseFroms (s : String) : Option (List Str) := do
+  (← parseList s).mapM unhex
+
+def parseTos (s : String) : Option (List (Option Str)) := do
+  (← parseList s).mapM (fun tok => if tok == "N" then some none else (unhex tok).map some)
+
+def bit (c : Char) : Option Bool :=
+  if c == '0' then some false else if c == '1' then some true else none
+
+partial def showCanon (n0 : Nat) : Tree → String
+  | .node i n a cs =>
+    "( " ++ (if i < n0 then toString i else "new") ++ " " ++ hex n ++ " " ++ showAttrs a ++ " "
+      ++ String.join (cs.map fun c => showCanon n0 c ++ " ") ++ ")"
+
+def showErr : Err → String
+  | .value => "ValueError"
+  | .notFound => "NotFoundError"
+  | .tree => "TreeError"
+  | .search => "SearchError"
+  | .other => "rej"
+
+def handle (toks : List String) : String :=
+  let r : Option String := do
+    let fn ← kv toks "fn"
+    let copy ← match (← kv toks "copy") with | "0" => some false | "1" => some true | _ => none
+    let flags ← (← kv toks "flags").toList.mapM bit
+    let sep ← unhex (← kv toks "sep")
+    let fsep ← unhex (← kv toks "fsep")
+    let tsep ← unhex (← kv toks "tsep")
+    let n0 ← (← kv toks "n").toNat?
+    let froms ← parseFroms (← kv toks "from")
+    let tos ← parseTos (← kv toks "to")
+    let (sk, ov, mc, ml, dc, fp) ← match flags with
+      | [a, b, c, d, e, f] => some (a, b, c, d, e, f)
+      | _ => none
+    let (_, dToks) := splitAtTok toks "D"
+    let (dst, rest) ← parseTree dToks
+    if rest ≠ [] then none
+    let src ← if toks.contains "S" then do
+        let (_, sToks) := splitAtTok toks "S"
+        let (s, _) ← parseTree sToks
+        pure (some s)
+      else pure none
+    -- the five public functions copy whenever a separate source tree is given
+    if src.isSome && !copy then none
+    if sep.isEmpty || fsep.isEmpty || tsep.isEmpty then none
+    let cfg : Cfg := { sep := sep, fsep := fsep, tsep := tsep, copy := copy, skippable := sk,
+                       overriding := ov, mergeChildren := mc, mergeLeaves := ml,
+                       deleteChildren := dc, withFullPath := fp }
+    let st : St := { src := src, dst := dst, next := n0 }
+    let res ← match fn with
+      | "cs" => some (copyOrShiftLists cfg st froms tos)
+      | "rp" => some (replaceLists cfg st froms tos)
+      | _ => none
+    match res with
+    | .error e => pure (showErr e)
+    | .ok st' =>
+      pure ("ok " ++ showCanon n0 st'.dst ++
+        (match st'.src with | some s => " | " ++ showCanon n0 s | none => ""))
+  r.getD "bad-op"
+
 end Drv.C08
